@@ -551,6 +551,20 @@ func (s *c15Sim) upload(r *c15Req) {
 		s.class("defect-free-request")
 	}
 	s.after()
+	// the lock store applied the commit but reported an error: another client, still at the previous mirror size,
+	// sends its own (now stale) commit for that size
+	if faultFired && code >= 500 && r.fault != nil && r.fault.op == c15OpReplace && r.fault.mode == c15ModeErrApplied && !r.isRetry &&
+		after.hasMir && st.hasMir && after.mir > st.mir && c15Uniform(s.rt, "replayPrevMirror", 2) == 0 {
+		r3 := &c15Req{log: l, start: st.mir, end: st.mir, endKind: "prev-mirror", stKind: "prev-mirror", tkKind: "none", bodyKind: "none", bodyOK: true, isRetry: true}
+		for i := range s.tickets {
+			if tk := &s.tickets[i]; tk.log == l.idx && tk.epoch == s.epoch && tk.size == st.mir {
+				r3.tk, r3.tkKind, r3.tkBytes = tk, "valid", tk.raw
+			}
+		}
+		s.class("stale-commit-at-the-previous-mirror-size-after-a-lost-ack")
+		s.upload(r3)
+		return
+	}
 	// a client whose request failed on the server side usually sends the very same request again
 	if faultFired && code >= 500 && !r.isRetry && c15Uniform(s.rt, "retryAfterFault", 3) > 0 {
 		r2 := *r
@@ -1264,10 +1278,18 @@ func (s *c15Sim) run() {
 		s.scriptCutCommit(a)
 	}
 
+	// in one case out of four both mirrored logs are equally busy (state the witness shares between origins)
+	twoLogs := c15Uniform(rt, "twoLogs", 4) == 2
+	if twoLogs {
+		s.class("two-busy-logs")
+	}
 	steps := rapid.IntRange(3, 14).Draw(rt, "steps")
+	if twoLogs {
+		steps += 6
+	}
 	for i := 0; i < steps; i++ {
 		l := a
-		if c15Uniform(rt, "whichLog", 12) == 7 {
+		if c15Uniform(rt, "whichLog", 12) == 7 || (twoLogs && c15Uniform(rt, "whichLog2", 2) == 1) {
 			l = b
 		}
 		st := s.snap(l)
@@ -1303,17 +1325,30 @@ func (s *c15Sim) run() {
 					mode: []int{c15ModeErr, c15ModeErrApplied, c15ModeCrashBefore, c15ModeCrashAfter}[c15Uniform(rt, "ckptFaultMode", 4)]}
 			}
 			ep := s.epoch
-			s.addCheckpoint(l, s.genDelta(), f)
+			delta := s.genDelta()
+			s.addCheckpoint(l, delta, f)
 			// a client usually learns the new state right away (and gets a ticket for it)
 			if ep == s.epoch && c15Uniform(rt, "probeAfterCkpt", 2) == 0 {
 				s.upload(s.probe(l))
 			}
+			if twoLogs && l == a && ep == s.epoch {
+				// the other log grows in step: both logs then need tiles at the same coordinates
+				s.addCheckpoint(b, delta, nil)
+			}
 		case "upload":
 			s.upload(s.genUpload(l, ""))
+			if twoLogs && l == a {
+				s.upload(s.genUpload(b, "resume"))
+			}
 		case "ticketcommit":
 			s.upload(s.genUpload(l, "ticket"))
 		case "cutupload":
 			s.upload(s.genUpload(l, "cut"))
+			if twoLogs && l == a {
+				if sb := s.snap(b); sb.hasPend && sb.pend-(sb.next-sb.next%256) > 256 {
+					s.upload(s.genUpload(b, "cut"))
+				}
+			}
 		case "aheadupload":
 			s.upload(s.genUpload(l, "ahead"))
 		case "probe":
